@@ -486,6 +486,18 @@ impl<'s> Builder<'s> {
 						k => panic!("kind {k} over shared references"),
 					};
 					self.finish_top(cid, r);
+				} else if cont == "refvec" {
+					// the input of the checked constructor is itself a (thin) shared reference to a container: `try_new(&vec)`
+					assert!(wrap.is_none(), "only Vec-based collections are wrapped / nested");
+					assert!(ctor == "try", "a reference to a container has no unchecked constructor");
+					let v: &'static Vec<Node> = leak(self.nodes(&members));
+					let r: Option<&'static dyn DynColl> = match kind.as_str() {
+						"boxed" => BoxedLockCollection::try_new(v).map(|x| leak(x) as &'static dyn DynColl),
+						"ref" => RefLockCollection::try_new(leak(v)).map(|x| leak(x) as &'static dyn DynColl),
+						"retry" => RetryingLockCollection::try_new(v).map(|x| leak(x) as &'static dyn DynColl),
+						k => panic!("kind {k} over a reference to a container"),
+					};
+					self.finish_top(cid, r);
 				} else {
 					assert!(wrap.is_none(), "only Vec-based collections are wrapped / nested");
 					let nodes = self.nodes(&members);
